@@ -607,6 +607,10 @@ class PDFPageInterpreter:
 
     def do_h(self) -> None:
         """Close subpath"""
+        if self.curpath and self.curpath[-1][0] == "h":
+            # The subpath is already closed: h does nothing (PDF 32000-1, table 59).
+            # This also covers s, b and b* after an explicit h or a rectangle.
+            return
         self.curpath.append(("h",))
 
     def do_re(self, x: PDFStackT, y: PDFStackT, w: PDFStackT, h: PDFStackT) -> None:
